@@ -154,6 +154,147 @@ def run(F, rep):
     g6_rule(F, rep)
     # ------------------------------------------------------------ G7: a single multi-sample file is scanned like the first of several files
     g7_rule(F, rep)
+    # ------------------------------------------------------------ G8: the sample a PanSN header names is its first two fields
+    g8_rule(F, rep)
+    # ------------------------------------------------------------ G9: a record's sample does not depend on the records before it
+    g9_rule(F, rep)
+
+
+def g8_rule(F, rep, rule="C19-G8"):
+    """In a single PanSN file the sample of a record is read from its header `sample#haplotype#contig`: the first two
+    fields, whatever the contig field holds (it may contain '#').  Evaluated in the string domain for every header of one
+    to five fields over a small field alphabet (including empty fields)."""
+    import itertools
+    from strint import StrInterp
+    from absint import Undecidable, Panic
+    f = F.funcs.get("ragc_core::genome_io::parse_sample_from_header")
+    if not rep.floor(rule, 1 if f else 0, 1, "genome_io::parse_sample_from_header"):
+        return
+    bad, undec, n = [], None, 0
+    for nf in range(1, 6):
+        for fields in itertools.product(("S1", "1", "c", ""), repeat=nf):
+            h = "#".join(fields)
+            n += 1
+            try:
+                r = StrInterp(F).call(f, [h])
+            except Panic as e:
+                bad.append("header %r: panics (%s)" % (h, e))
+                continue
+            except Undecidable as e:
+                undec = "header %r: %s" % (h, e)
+                break
+            if nf >= 3:
+                want = ("#".join(fields[:2]), "#".join(fields[2:]))
+                got = (r.get(0), r.get(1)) if isinstance(r, dict) else r
+                if got != want:
+                    bad.append("header %r is read as sample %r, contig %r (PanSN: sample %r, contig %r)" % (h, got[0], got[1], want[0], want[1]))
+        if undec:
+            break
+    rep.ob(rule, "a header sample#haplotype#contig... names the sample `sample#haplotype` and the contig by everything after the second '#', for every "
+           "header of 3 to 5 fields over the field alphabet; shorter headers are parsed without a panic", undec is None and not bad,
+           detail=("undecidable construct: %s" % undec) if undec else ("%d headers evaluated" % n if not bad else "%d of %d headers differ, e.g. %s" % (len(bad), n, "; ".join(bad[:3]))),
+           site="%s:%d" % (f.file, f.line_lo), key="%s | parse_sample_from_header | first two fields" % rule)
+    rep.stat("pansn_headers_evaluated", n)
+
+
+def g9_rule(F, rep, rule="C19-G9"):
+    """The sample and contig name of a record depend on its own header only, not on the records read before it: the
+    record reader is evaluated on every ordered pair and a set of triples of headers (the underlying line reader replaced
+    by the header sequence), and each result is compared with the header parsed on its own."""
+    import itertools
+    from strint import StrInterp, some as ssome, NONE as SNONE
+    from absint import Undecidable, Panic
+    key = "ragc_core::genome_io::GenomeIO::<R>::read_contig_with_sample"
+    f = F.funcs.get(key)
+    pf = F.funcs.get("ragc_core::genome_io::parse_sample_from_header")
+    adt = F.adts.get("ragc_core::genome_io::GenomeIO")
+    if not rep.floor(rule, sum(1 for x in (f, pf, adt) if x), 3, "GenomeIO, read_contig_with_sample, parse_sample_from_header"):
+        return
+
+    class RecInterp(StrInterp):
+        feed = None
+
+        def rvalue(self, rv):
+            if rv["k"] == "discr":
+                v = self.read_place(rv["pl"])
+                if isinstance(v, dict) and v.get("__adt") == "core::ops::control_flow::ControlFlow":
+                    return 0 if v["__var"] == "Continue" else 1
+            return StrInterp.rvalue(self, rv)
+
+        def assign(self, pl, v):
+            path = pl["p"]
+            base = self.env.get(pl["l"])
+            if len(path) == 2 and path[0] == "deref" and isinstance(base, tuple) and base and base[0] == "refval" and isinstance(base[1], dict) \
+                    and isinstance(path[1], dict) and "f" in path[1]:
+                base[1][path[1].get("n", path[1]["f"])] = v
+                return
+            return StrInterp.assign(self, pl, v)
+
+        def do_call(self, t):
+            c = t.get("callee", "")
+            if c.endswith("GenomeIO::<R>::read_contig_impl"):
+                if not self.feed:
+                    return {"__adt": "core::result::Result", "__var": "Ok", "0": SNONE, 0: SNONE}
+                h = self.feed.pop(0)
+                v = ssome({0: h, 1: [0, 1, 2, 3]})
+                return {"__adt": "core::result::Result", "__var": "Ok", "0": v, 0: v}
+            if c.endswith("ops::try_trait::Try>::branch"):
+                r = self.deref_arg(self.operand(t["args"][0]))
+                if isinstance(r, dict) and r.get("__adt") == "core::result::Result":
+                    if r["__var"] == "Ok":
+                        return {"__adt": "core::ops::control_flow::ControlFlow", "__var": "Continue", 0: r.get(0), "0": r.get(0)}
+                    return {"__adt": "core::ops::control_flow::ControlFlow", "__var": "Break", 0: r, "0": r}
+                raise Undecidable("? on %r" % (r,))
+            if "FromResidual" in c and c.endswith("::from_residual"):
+                return self.deref_arg(self.operand(t["args"][0]))
+            return StrInterp.do_call(self, t)
+
+    def fresh_self():
+        d = {"__adt": adt["key"], "__var": adt["variants"][0]["name"]}
+        for fl in adt["variants"][0]["fields"]:
+            ty = fl["ty"]
+            d[fl["name"]] = SNONE if ty.startswith("core::option::Option<") else ([] if ty.startswith("alloc::vec::Vec<") else ("" if ty == "alloc::string::String" else
+                                                                                    (0 if ty in ("bool", "usize", "u32", "u64") else "opaque")))
+        return d
+
+    heads = ["S1#1#c1", "S1#1#c2", "S1#10#c1", "S1#2#c1", "S2#1#c1", "S1#1", "S1", "S1#1#", "S1#1#c1#p", "S1#1x#c1", "c1", "S1#1#S1#1#c"]
+    seqs = list(itertools.product(heads, repeat=2)) + [(a, b, a) for a in heads[:6] for b in heads[:6]]
+    bad, undec, n = [], None, 0
+    alone = {}
+    try:
+        for h in heads:
+            r = StrInterp(F).call(pf, [h])
+            alone[h] = (r.get(0), r.get(1))
+    except (Undecidable, Panic) as e:
+        undec = "parse_sample_from_header: %s" % e
+    for sq in seqs:
+        if undec:
+            break
+        me = fresh_self()
+        feed = list(sq)
+        for i, h in enumerate(sq):
+            n += 1
+            it = RecInterp(F)
+            it.feed = feed
+            try:
+                r = it.call(f, [("refval", me)])
+            except Panic as e:
+                bad.append("headers %s: record %d panics (%s)" % (list(sq), i + 1, e))
+                break
+            except Undecidable as e:
+                undec = "headers %s, record %d: %s" % (list(sq), i + 1, e)
+                break
+            v = r.get(0, r.get("0")) if isinstance(r, dict) and r.get("__var") == "Ok" else None
+            rec = v[1] if isinstance(v, tuple) and v and v[0] == "Some" else None
+            got = (rec.get(1), rec.get(2)) if isinstance(rec, dict) else None
+            if got != alone[h] or (isinstance(rec, dict) and rec.get(0) != h):
+                bad.append("after %s the record %r is returned as sample/contig %r; read on its own it is %r" % (list(sq[:i]), h, got, alone[h]))
+                break
+    rep.ob(rule, "read_contig_with_sample returns, for each record, the header and the sample / contig names that header gives on its own, whatever records came before "
+           "(all ordered pairs of %d headers, %d triples)" % (len(heads), len(seqs) - len(heads) ** 2), undec is None and not bad,
+           detail=("undecidable construct: %s" % undec) if undec else ("%d reads evaluated" % n if not bad else "%d sequences differ, e.g. %s" % (len(bad), "; ".join(bad[:3]))),
+           site="%s:%d" % (f.file, f.line_lo), key="%s | read_contig_with_sample | history independent" % rule)
+    rep.stat("record_reads_evaluated", n)
 
 
 NAME_TEMPLATES = [(b, e) for b in ("s1", "asm.v1", "GCA_000001405.15", "sample-a_b") for e in ("fa", "fasta", "fna", "fas", "faa", "txt", None)]
